@@ -38,7 +38,7 @@ class C05(Check):
         "codecs limited to null/deflate/bzip2/xz (others not importable here)",
     ]
     required_labels = ["kind:fa2ref", "kind:ref2fa", "kind:isavro", "kind:fixture", "fa2ref:appended", "ref2fa:empty-block", "ref2fa:chunked-header", "ref2fa:no-codec-key", "fa2ref:blocks>=2", "isavro:true", "isavro:false", "isavro:short"]
-    quick = (500, 1)
+    quick = (1500, 1)
     thorough = (3000, 16)
 
     def __init__(self):
